@@ -417,7 +417,17 @@ def _maybe_attach_shm(
     except (ValueError, UnicodeDecodeError):
         _logger.warning("Ignoring malformed SHM metadata: name=%r, size=%r", shm_name_bytes, shm_size_bytes)
         return None
-    return ShmSegment.attach(shm_name, shm_size, track=False)
+    try:
+        return ShmSegment.attach(shm_name, shm_size, track=False)
+    except (OSError, ValueError):
+        # A segment that does not exist, belongs to someone else, or does not
+        # carry a valid header is the same case as malformed metadata: the
+        # request names something we cannot use.  Raising here would escape
+        # serve_one and end the serve loop without a reply.
+        _logger.warning(
+            "Ignoring unusable SHM segment: name=%r, size=%r", shm_name_bytes, shm_size_bytes, exc_info=True
+        )
+        return None
 
 
 class _ConnectionShm:
@@ -875,6 +885,19 @@ class RpcServer:
                     _write_error_stream(transport.writer, _EMPTY_SCHEMA, exc, server_id=self._server_id)
                 raise
             except (VersionError, RpcError) as exc:
+                with contextlib.suppress(BrokenPipeError, OSError):
+                    _write_error_stream(transport.writer, _EMPTY_SCHEMA, exc, server_id=self._server_id)
+                return
+            except (EOFError, StopIteration, OSError):
+                # The peer is gone or the stream ended cleanly: serve() ends the loop.
+                raise
+            except Exception as exc:
+                # Anything else raised while decoding a well-framed request (a batch
+                # that fails validation, an unresolvable shm or external pointer,
+                # undecodable metadata) is that request's fault.  _read_request has
+                # already consumed the request stream, so answer with a typed error
+                # stream and keep serving instead of letting it end the loop with the
+                # client still waiting for a reply.
                 with contextlib.suppress(BrokenPipeError, OSError):
                     _write_error_stream(transport.writer, _EMPTY_SCHEMA, exc, server_id=self._server_id)
                 return
